@@ -61,7 +61,8 @@ TRUSTED = ['z3 quantifier instantiation']
 
 
 def tasks(tier):
-    return ['align', 'remove', 'tagged', 'extend', 'extract', 'canary']
+    return ['align', 'remove', 'tagged', 'extend', 'extract', 'props', 'add',
+            'append', 'addprop', 'canary']
 
 
 def mod(repo):
@@ -124,6 +125,14 @@ def run_task(task, ctx):
         return task_extend(ctx, repo, m)
     if task == 'extract':
         return task_extract(ctx, repo, m)
+    if task == 'props':
+        return task_props(ctx, repo, m)
+    if task == 'add':
+        return task_add(ctx, repo, m)
+    if task == 'append':
+        return task_append(ctx, repo, m)
+    if task == 'addprop':
+        return task_addprop(ctx, repo, m)
     if task == 'canary':
         a = z3.Array('ca', z3.IntSort(), z3.IntSort())
         i = z3.Int('ci')
@@ -475,6 +484,47 @@ def task_extend(ctx, repo, m):
 
 
 # ------------------------------------------------------------------ extract
+REPLAY_EXTRACT = r'''
+import json, sys
+d = json.load(sys.stdin)
+sys.path.insert(0, d['built'])
+import numpy as np
+from pysph.base.utils import get_particle_array
+bad = None
+src = get_particle_array(name='s', x=[10., 11., 12.])
+src.add_property('vec3', stride=3); src.vec3[:] = np.arange(9.0)
+dst = get_particle_array(name='d', x=[0., 1., 2., 3.])
+dst.add_property('vec3', stride=3)
+dst.tag[:] = [0, 0, 2, 2]          # two ghosts behind two real particles
+dst.align_particles()
+before = sorted(dst.get('x', only_real_particles=False).tolist())
+src.extract_particles([0, 2], dest_array=dst, align=False)
+x = dst.get('x', only_real_particles=False).tolist()
+v = dst.get('vec3', only_real_particles=False).reshape(-1, 3).tolist()
+if sorted(x) != sorted(before + [10., 12.]) or x[4:] != [10., 12.] or v[4:] != [[0., 1., 2.], [6., 7., 8.]]:
+    bad = dict(op='extract_particles([0,2]) into an array with 2 real + 2 ghost particles', x_after=x, vec3_tail=v[4:])
+print(json.dumps(dict(bad=bad)))
+'''
+
+
+def replay_extract(model, ob):
+    import os
+    if os.environ.get('PYVC_NO_BUILD_REPLAY'):
+        return dict(reproduced=False, note='build replay disabled')
+    try:
+        dst, msg = native.shared_build()
+        if dst is None:
+            return dict(reproduced=False, note=msg)
+        r = native.run_venv(REPLAY_EXTRACT, dict(built=dst), timeout=900,
+                            cwd='/tmp')
+        if r['bad']:
+            return dict(reproduced=True, how='particle_array built from the '
+                        'working tree', **r['bad'])
+        return dict(reproduced=False)
+    except Exception as e:
+        return dict(reproduced=False, note=str(e)[-300:])
+
+
 def task_extract(ctx, repo, m):
     fn = m.methods('ParticleArray')['extract_particles']
     W = m.path
@@ -485,8 +535,13 @@ def task_extract(ctx, repo, m):
         dprops = {'x': carr_obj('dx'), 'v': carr_obj('dv')}
         obj = pa_self(props, {'v': 3}, n)
         idx = SymObject(None, dict(length=L), 'indices')
+        nrd = z3.Int('n_real_dest')
         dest = SymObject(None, dict(
-            get_number_of_particles=Native(lambda e, s_, a, k, nn: nd),
+            # the destination may hold ghosts behind its real particles
+            num_real_particles=nrd,
+            get_number_of_particles=Native(
+                lambda e, s_, a, k, nn: nrd if (k.get('real') or (
+                    a and a[0] is True)) else nd),
             extend=Native(lambda e, s_, a, k, nn: s_.trace.append(
                 ('dest.extend', a[0]))),
             get_carray=Native(lambda e, s_, a, k, nn: dprops[a[0]]),
@@ -500,7 +555,8 @@ def task_extract(ctx, repo, m):
         outs = ex.exec_function(fn, dict(self=obj, indices=idx,
                                          dest_array=dest, align=align,
                                          props=None),
-                                State(pc=[n >= 0, L >= 0, nd >= 0]))
+                                State(pc=[n >= 0, L >= 0, nd >= 0, nrd >= 0,
+                                          nrd <= nd]))
         ctx.function(m, fn, 'ParticleArray.extract_particles', ex.dropped)
         for i_, o in enumerate(outs):
             tr = o.state.trace
@@ -533,4 +589,540 @@ def task_extract(ctx, repo, m):
                                       W))
     for o_ in obs:
         o_.extra = dict(o_.extra or {}, backends=['z3'])
-    ctx.prove('extract.copies_whole_rows_to_the_end', obs, use_nf=False)
+    ctx.prove('extract.copies_whole_rows_to_the_end', obs, use_nf=False,
+              replay=replay_extract)
+
+
+# --------------------------------------------- property bookkeeping / resize
+REPLAY_PROPS = r'''
+import json, sys
+d = json.load(sys.stdin)
+sys.path.insert(0, d['built'])
+import numpy as np
+from pysph.base.utils import get_particle_array
+bad = None
+def wf(pa, what):
+    n = pa.get_number_of_particles()
+    for name in pa.properties:
+        st = pa.stride.get(name, 1)
+        if pa.get_carray(name).length != n * st:
+            return dict(op=what, prop=name, length=int(pa.get_carray(name).length), n=int(n), stride=int(st))
+    for name in pa.stride:
+        if name not in pa.properties:
+            return dict(op=what, prop=name, problem='stride entry of a property that no longer exists', stride=int(pa.stride[name]))
+    return None
+pa = get_particle_array(name='a', x=[0., 1., 2., 3.])
+pa.add_property('vec', stride=3)
+pa.remove_property('vec')
+bad = wf(pa, 'add_property(vec, stride=3); remove_property(vec)')
+if bad is None:
+    pa.add_property('vec')
+    bad = wf(pa, 'add_property(vec, stride=3); remove_property(vec); add_property(vec)')
+if bad is None:
+    pa = get_particle_array(name='a', x=[0., 1., 2.])
+    pa.add_property('w2', stride=2); pa.w2[:] = np.arange(6.0)
+    pa.resize(5)
+    bad = wf(pa, 'resize(5)')
+if bad is None:
+    pa = get_particle_array(name='a', x=[0., 1., 2.])
+    pa.add_property('w2', stride=2, default=7.0); pa.w2[:] = np.arange(6.0)
+    pa.add_particles(x=[5., 6.])
+    bad = wf(pa, 'add_particles(x=[5,6])')
+    if bad is None and (list(pa.get('w2', only_real_particles=False)) != [0., 1., 2., 3., 4., 5., 7., 7., 7., 7.]):
+        bad = dict(op='add_particles(x=[5,6])', problem='strided property not extended with its default', w2=list(map(float, pa.get('w2', only_real_particles=False))))
+if bad is None:
+    a = get_particle_array(name='a', x=[0., 1.])
+    a.add_property('w2', stride=2); a.w2[:] = [1., 2., 3., 4.]
+    b = get_particle_array(name='b', x=[7.])
+    b.add_property('w2', stride=2); b.w2[:] = [9., 10.]
+    b.add_property('q2', stride=3); b.q2[:] = [1., 2., 3.]
+    a.append_parray(b)
+    bad = wf(a, 'append_parray')
+    if bad is None and (list(a.w2) != [1., 2., 3., 4., 9., 10.] or list(a.q2) != [0.]*6 + [1., 2., 3.]):
+        bad = dict(op='append_parray', w2=list(map(float, a.w2)), q2=list(map(float, a.q2)))
+if bad is None:
+    # first particles arrive through add_property on an empty array that
+    # already declares a strided property
+    from pysph.base.particle_array import ParticleArray
+    pa = ParticleArray(name='e')
+    pa.add_property('A9', stride=3, default=5.0)
+    pa.add_property('x', data=[1., 2., 3.])
+    bad = wf(pa, "empty array: add_property('A9', stride=3); add_property('x', data=[1,2,3])")
+    if bad is None and list(pa.get('A9', only_real_particles=False)) != [5.0] * 9:
+        bad = dict(op='empty array then data', A9=list(map(float, pa.get('A9', only_real_particles=False))))
+if bad is None:
+    # the declared default survives a later add_property(name, data=...)
+    pa = get_particle_array(name='a', x=[0., 1.])
+    pa.add_property('rho9', default=1000.0)
+    pa.add_property('rho9', data=[1., 2.])
+    pa.extend(2)
+    if list(pa.get('rho9', only_real_particles=False)) != [1., 2., 1000., 1000.]:
+        bad = dict(op="add_property('rho9', default=1000); add_property('rho9', data=[1,2]); extend(2)", rho9=list(map(float, pa.get('rho9', only_real_particles=False))))
+print(json.dumps(dict(bad=bad)))
+'''
+
+
+def replay_props(model, ob):
+    import os
+    if os.environ.get('PYVC_NO_BUILD_REPLAY'):
+        return dict(reproduced=False, note='build replay disabled')
+    try:
+        dst, msg = native.shared_build()
+        if dst is None:
+            return dict(reproduced=False, note=msg)
+        r = native.run_venv(REPLAY_PROPS, dict(built=dst), timeout=900,
+                            cwd='/tmp')
+        if r['bad']:
+            return dict(reproduced=True, how='particle_array built from the '
+                        'working tree', **r['bad'])
+        return dict(reproduced=False)
+    except Exception as e:
+        return dict(reproduced=False, note=str(e)[-300:])
+
+
+def task_props(ctx, repo, m):
+    """remove_property drops EVERY per-property record (array, default,
+    stride, output list): a stale stride would make the next property of that
+    name violate len = n*stride; resize walks every property with its stride"""
+    W = m.path
+    fn = m.methods('ParticleArray')['remove_property']
+    props = {'x': carr_obj('x'), 'v': carr_obj('v')}
+    obj = pa_self(props, {'v': 3}, z3.Int('n'), dict(
+        default_values={'x': z3.Real('dx'), 'v': z3.Real('dv')},
+        output_property_arrays=['x', 'v']))
+    ex = executor(repo, m, 'remove_property')
+    outs = ex.exec_function(fn, dict(self=obj, prop_name='v'), State(pc=[]))
+    ctx.function(m, fn, 'ParticleArray.remove_property', ex.dropped)
+    obs = []
+    for i_, o in enumerate(outs):
+        me = o.state.env['self']
+        for rec in ('properties', 'default_values', 'stride',
+                    'output_property_arrays'):
+            obs.append(Obligation('remove_property.%s_forgets_the_name.%d' % (
+                rec, i_), o.pc, z3.BoolVal('v' not in me.attrs[rec]), W))
+        obs.append(Obligation('remove_property.others_kept.%d' % i_, o.pc,
+                              z3.BoolVal('x' in me.attrs['properties'] and
+                                         'x' in me.attrs['default_values'] and
+                                         'x' in me.attrs[
+                                             'output_property_arrays']), W))
+    ctx.prove('props.remove_property_drops_every_record_of_the_name', obs,
+              replay=replay_props)
+    # resize
+    fn = m.methods('ParticleArray')['resize']
+    props = {'x': carr_obj('x'), 'v': carr_obj('v'), 'tag': carr_obj('tag')}
+    obj = pa_self(props, {'v': 3}, z3.Int('n'))
+    size = z3.Int('size')
+    ex = executor(repo, m, 'resize')
+    outs = ex.exec_function(fn, dict(self=obj, size=size), State(pc=[]))
+    ctx.function(m, fn, 'ParticleArray.resize', ex.dropped)
+    obs = []
+    for i_, o in enumerate(outs):
+        tr = [t for t in o.state.trace if t[0] == 'resize']
+        ok = [t[1] for t in tr] == ['x', 'v', 'tag']
+        g = [z3.BoolVal(ok)]
+        if ok:
+            for t, s_ in zip(tr, (1, 3, 1)):
+                g.append(S.to_z3(S.cmp('==', t[2][0], size * s_)))
+        obs.append(Obligation('resize.every_property_own_stride.%d' % i_,
+                              o.pc, z3.And(*g), W))
+    for o_ in obs:
+        o_.extra = dict(o_.extra or {}, backends=['z3'])
+    ctx.prove('props.resize_walks_every_property_with_its_stride', obs,
+              use_nf=False, replay=replay_props)
+
+
+class SeqArg(object):
+    """a sequence argument of symbolic length (numpy array / list)"""
+
+    def __init__(self, name, length):
+        self.name, self.length = name, length
+
+    def vc_len(self, ex, st, node):
+        return self.length
+
+    def vc_clone(self, memo, _c=None):
+        return self
+
+
+def task_add(ctx, repo, m):
+    """add_particles (CPU path): given properties are extended with the given
+    data, every other property grows to (n+k)*stride and gets its default
+    from n*stride on; aligned afterwards iff something was added"""
+    W = m.path
+    fn = m.methods('ParticleArray')['add_particles']
+    n, k = z3.Int('n'), z3.Int('k')
+    obs = []
+    for align in (True, False):
+        props = {}
+        for nm in ('x', 'v', 'tag'):
+            c = carr_obj(nm)
+            c.attrs['get_npy_array'] = Native(
+                lambda e, s_, a, k_, nn, nm=nm: SymObject(None, dict(
+                    dtype='dtype_' + nm), 'npview_' + nm) if False else
+                _View(nm))
+            c.attrs['extend'] = Native(lambda e, s_, a, k_, nn, nm=nm:
+                                       s_.trace.append(('extend', nm, a[0])))
+            props[nm] = c
+        dflt = {nm: z3.Real('default_' + nm) for nm in props}
+        obj = pa_self(props, {'v': 3}, n, dict(default_values=dflt))
+        given = {'x': SeqArg('given_x', k), 'v': SeqArg('given_v', 3 * k)}
+        ex = executor(repo, m, 'add_particles', contracts={
+            'ParticleArray.get_number_of_particles': CalleeContract(
+                lambda e, s_, a, k_, nn: n),
+            'ParticleArray._check_property': CalleeContract(
+                lambda e, s_, a, k_, nn: None),
+            'ParticleArray.align_particles': CalleeContract(
+                lambda e, s_, a, k_, nn: s_.trace.append(('align',)))})
+        ex.spec_env['numpy'] = SymObject(None, dict(asarray=Native(
+            lambda e, s_, a, k_, nn: a[0])), 'numpy')
+        ex.spec_env['PyDict_GetItem'] = Native(lambda e, s_, a, k_, nn:
+                                               a[0][a[1]])
+        ex.spec_env['PyDict_Contains'] = Native(
+            lambda e, s_, a, k_, nn: 1 if a[1] in a[0] else 0)
+        outs = ex.exec_function(fn, dict(self=obj, align=align,
+                                         particle_props=given),
+                                State(pc=[n >= 0, k >= 0]))
+        if align:
+            ctx.function(m, fn, 'ParticleArray.add_particles', ex.dropped)
+        for i_, o in enumerate(outs):
+            tr = o.state.trace
+            ext = [t for t in tr if t[0] == 'extend']
+            rsz = [t for t in tr if t[0] == 'resize']
+            fil = [t for t in tr if t[0] == 'fill']
+            ok = [(t[1], getattr(t[2], 'name', None)) for t in ext] == [
+                ('x', 'given_x'), ('v', 'given_v')] and \
+                [t[1] for t in rsz] == ['tag'] and \
+                [t[1] for t in fil] == ['tag']
+            g = [z3.BoolVal(ok)]
+            if ok:
+                g.append(S.to_z3(S.cmp('==', rsz[0][2][0], (n + k) * 1)))
+                sl = fil[0][2]
+                g.append(z3.BoolVal(isinstance(sl, slice) and sl.stop is
+                                    None))
+                if isinstance(sl, slice):
+                    g.append(S.to_z3(S.cmp('==', sl.start, n * 1)))
+                g.append(z3.BoolVal(S.same(fil[0][3], dflt['tag'])))
+            aligned = ('align',) in tr
+            g.append(z3.BoolVal(True) if not align else
+                     (k > 0) == z3.BoolVal(aligned))
+            if not align:
+                g.append(z3.BoolVal(not aligned))
+            obs.append(Obligation('add_particles.%s.%d' % (
+                'align' if align else 'noalign', i_), o.pc, z3.And(*g), W))
+    # the strided property NOT given: grows by k blocks of its own stride
+    props = {}
+    for nm in ('x', 'v'):
+        c = carr_obj(nm)
+        c.attrs['get_npy_array'] = Native(lambda e, s_, a, k_, nn, nm=nm:
+                                          _View(nm))
+        c.attrs['extend'] = Native(lambda e, s_, a, k_, nn, nm=nm:
+                                   s_.trace.append(('extend', nm, a[0])))
+        props[nm] = c
+    dflt = {nm: z3.Real('default_' + nm) for nm in props}
+    obj = pa_self(props, {'v': 3}, n, dict(default_values=dflt))
+    ex = executor(repo, m, 'add_particles', contracts={
+        'ParticleArray.get_number_of_particles': CalleeContract(
+            lambda e, s_, a, k_, nn: n),
+        'ParticleArray._check_property': CalleeContract(
+            lambda e, s_, a, k_, nn: None),
+        'ParticleArray.align_particles': CalleeContract(
+            lambda e, s_, a, k_, nn: s_.trace.append(('align',)))})
+    ex.spec_env['numpy'] = SymObject(None, dict(asarray=Native(
+        lambda e, s_, a, k_, nn: a[0])), 'numpy')
+    ex.spec_env['PyDict_GetItem'] = Native(lambda e, s_, a, k_, nn:
+                                           a[0][a[1]])
+    ex.spec_env['PyDict_Contains'] = Native(
+        lambda e, s_, a, k_, nn: 1 if a[1] in a[0] else 0)
+    outs = ex.exec_function(fn, dict(self=obj, align=False, particle_props={
+        'x': SeqArg('given_x', k)}), State(pc=[n >= 0, k >= 0]))
+    for i_, o in enumerate(outs):
+        tr = o.state.trace
+        rsz = [t for t in tr if t[0] == 'resize']
+        fil = [t for t in tr if t[0] == 'fill']
+        ok = [t[1] for t in rsz] == ['v'] and [t[1] for t in fil] == ['v']
+        g = [z3.BoolVal(ok)]
+        if ok:
+            g.append(S.to_z3(S.cmp('==', rsz[0][2][0], (n + k) * 3)))
+            sl = fil[0][2]
+            if isinstance(sl, slice):
+                g.append(S.to_z3(S.cmp('==', sl.start, n * 3)))
+            else:
+                g.append(z3.BoolVal(False))
+        obs.append(Obligation('add_particles.strided_default.%d' % i_, o.pc,
+                              z3.And(*g), W))
+    for o_ in obs:
+        o_.extra = dict(o_.extra or {}, backends=['z3'])
+    ctx.prove('add.add_particles_extends_every_property_consistently', obs,
+              use_nf=False, replay=replay_props)
+
+
+class _View(object):
+    """numpy view of a carray: slice stores are events; .dtype is a token"""
+
+    def __init__(self, name):
+        self.name = name
+
+    def vc_setitem(self, idx, v, ex, st, node):
+        st.trace.append(('fill', self.name, idx, v))
+
+    def vc_getattr(self, a, ex, st, node):
+        if a == 'dtype':
+            return 'dtype_' + self.name
+        raise VCError('view.' + a)
+
+    def vc_clone(self, memo, _c=None):
+        return self
+
+
+def task_append(ctx, repo, m):
+    """append_parray: extended by the other array's particle count, common
+    properties copied to the tail from n*stride with the DESTINATION's
+    stride, missing ones created with the source's type/default/stride and
+    copied to their tail; aligned afterwards on request"""
+    W = m.path
+    fn = m.methods('ParticleArray')['append_parray']
+    n, k = z3.Int('n'), z3.Int('k')
+    obs = []
+    for align in (True, False):
+        props = {}
+        for nm in ('x', 'v'):
+            c = carr_obj(nm)
+            c.attrs['get_npy_array'] = Native(
+                lambda e, s_, a, k_, nn, nm=nm: _View(nm))
+            props[nm] = c
+        obj = pa_self(props, {'v': 3}, n, dict(
+            default_values={'x': z3.Real('dx'), 'v': z3.Real('dv')},
+            constants={}))
+        sprops = {}
+        for nm in ('x', 'v', 'q'):
+            c = carr_obj('src_' + nm)
+            c.attrs['get_npy_array'] = Native(
+                lambda e, s_, a, k_, nn, nm=nm: ('srcview', nm))
+            c.attrs['get_c_type'] = Native(
+                lambda e, s_, a, k_, nn, nm=nm: 'ctype_' + nm)
+            sprops[nm] = c
+        other = SymObject(None, dict(
+            properties=sprops, stride={'v': 3, 'q': 2},
+            default_values={'x': 0, 'v': 0, 'q': z3.Real('dq')},
+            constants={},
+            get_number_of_particles=Native(lambda e, s_, a, k_, nn: k)),
+            'parray')
+
+        def add_property(e, s_, a, k_, nn):
+            me = a[0]
+            s_.trace.append(('add_property', dict(k_)))
+            c = carr_obj(k_['name'])
+            c.attrs['get_npy_array'] = Native(
+                lambda e2, s2, a2, k2, n2, nm=k_['name']: _View(nm))
+            me.attrs['properties'][k_['name']] = c
+            if not (isinstance(k_['stride'], int) and k_['stride'] == 1):
+                me.attrs['stride'][k_['name']] = k_['stride']
+        ex = executor(repo, m, 'append_parray', contracts={
+            'ParticleArray.get_number_of_particles': CalleeContract(
+                lambda e, s_, a, k_, nn: n),
+            'ParticleArray.extend': CalleeContract(
+                lambda e, s_, a, k_, nn: s_.trace.append(('extend_all',
+                                                          a[1]))),
+            'ParticleArray.add_property': CalleeContract(add_property),
+            'ParticleArray.align_particles': CalleeContract(
+                lambda e, s_, a, k_, nn: s_.trace.append(('align',)))})
+        ex.spec_env['PyDict_GetItem'] = Native(lambda e, s_, a, k_, nn:
+                                               a[0][a[1]])
+        ex.spec_env['PyDict_Contains'] = Native(
+            lambda e, s_, a, k_, nn: 1 if a[1] in a[0] else 0)
+        outs = ex.exec_function(fn, dict(self=obj, parray=other, align=align,
+                                         update_constants=False),
+                                State(pc=[n >= 0, k >= 0]))
+        if align:
+            ctx.function(m, fn, 'ParticleArray.append_parray', ex.dropped)
+        for i_, o in enumerate(outs):
+            tr = o.state.trace
+            if not tr:
+                obs.append(Obligation('append.noop.%d.%s' % (i_, align),
+                                      o.pc, k == 0, W))
+                continue
+            g = [z3.BoolVal(tr[0][0] == 'extend_all')]
+            if tr[0][0] == 'extend_all':
+                g.append(S.to_z3(S.cmp('==', tr[0][1], k)))
+            fills = [t for t in tr if t[0] == 'fill']
+            ok = [t[1] for t in fills] == ['x', 'v', 'q'] and all(
+                t[3] == ('srcview', t[1]) for t in fills)
+            g.append(z3.BoolVal(ok))
+            if ok:
+                for t, s_ in zip(fills, (1, 3, 2)):
+                    sl = t[2]
+                    g.append(z3.BoolVal(isinstance(sl, slice) and
+                                        sl.stop is None))
+                    if isinstance(sl, slice):
+                        g.append(S.to_z3(S.cmp('==', sl.start, n * s_)))
+            ap = [t for t in tr if t[0] == 'add_property']
+            okp = len(ap) == 1 and ap[0][1].get('name') == 'q' and \
+                ap[0][1].get('type') == 'ctype_q' and \
+                ap[0][1].get('stride') == 2 and \
+                S.same(ap[0][1].get('default'), z3.Real('dq'))
+            g.append(z3.BoolVal(bool(okp)))
+            aligned = ('align',) in tr
+            g.append(((k > 0) == z3.BoolVal(aligned)) if align else
+                     z3.BoolVal(not aligned))
+            obs.append(Obligation('append.%d.%s' % (i_, align), o.pc,
+                                  z3.And(*g), W))
+    for o_ in obs:
+        o_.extra = dict(o_.extra or {}, backends=['z3'])
+    ctx.prove('append.append_parray_copies_whole_rows_to_the_tail', obs,
+              use_nf=False, replay=replay_props)
+
+
+# ------------------------------------------------------------- add_property
+def task_addprop(ctx, repo, m):
+    """add_property (CPU path) for every combination of {array empty or not}
+    x {data given or not} x {name new or existing}: the default and stride
+    records, the length of the (new) array, and -- when the first particles
+    arrive with the data -- every OTHER property grown to n*ITS stride and
+    filled with ITS default."""
+    W = m.path
+    fn = m.methods('ParticleArray')['add_property']
+    obs = []
+    for existing in (False, True):
+        for has_data in (False, True):
+            for given_default in (False, True):
+                n, L = z3.Int('n'), z3.Int('len_data')
+                props = {}
+                for nm in ('x', 'v') + (('q',) if existing else ()):
+                    c = carr_obj(nm)
+                    c.attrs['get_npy_array'] = Native(
+                        lambda e, s_, a, k_, nn, nm=nm: _View(nm))
+                    c.attrs['set_data'] = Native(
+                        lambda e, s_, a, k_, nn, nm=nm: s_.trace.append(
+                            ('set_data', nm, a[0])))
+                    props[nm] = c
+                dflt = {nm: z3.Real('default_' + nm) for nm in props}
+                stride0 = {'v': 3}
+                if existing:
+                    stride0['q'] = 2
+                obj = pa_self(props, stride0, n, dict(default_values=dflt))
+                STR = 2
+                data = SeqArg('data', L) if has_data else None
+                newdef = z3.Real('new_default') if given_default else None
+
+                def create(e, s_, a, k_, nn):
+                    s_.trace.append(('create', a[1], a[2], a[3]))
+                    c = carr_obj('created')
+                    c.attrs['get_npy_array'] = Native(
+                        lambda e2, s2, a2, k2, n2: _View('created'))
+                    return c
+                ex = executor(repo, m, 'add_property', contracts={
+                    'ParticleArray.get_number_of_particles': CalleeContract(
+                        lambda e, s_, a, k_, nn: n),
+                    'ParticleArray._create_carray': CalleeContract(create),
+                    'ParticleArray._create_c_array_from_npy_array':
+                    CalleeContract(lambda e, s_, a, k_, nn: s_.trace.append(
+                        ('create_from', a[1])) or carr_obj('created'))})
+                ex.spec_env['numpy'] = SymObject(None, dict(
+                    asarray=Native(lambda e, s_, a, k_, nn: a[0]),
+                    ravel=Native(lambda e, s_, a, k_, nn: a[0]),
+                    ones=Native(lambda e, s_, a, k_, nn: SeqArg('ones',
+                                                                a[0])),
+                    sum=Native(lambda e, s_, a, k_, nn: z3.Int('n_local'))),
+                    'numpy')
+                ex.spec_env['logger'] = SymObject(None, dict(error=Native(
+                    lambda e, s_, a, k_, nn: None)), 'logger')
+                pre = [n >= 0, L >= 0]
+                if has_data:
+                    # valid arguments: whole particles, and as many as the
+                    # array holds unless it is empty
+                    kq = z3.Int('n_elem')
+                    pre += [L == kq * STR, kq >= 1,
+                            z3.Or(n == 0, n == kq)]
+                try:
+                    outs = ex.exec_function(fn, dict(
+                        self=obj, name='q', type='double', default=newdef,
+                        data=data, stride=STR), State(pc=pre))
+                except VCError as e:
+                    ctx.outside('addprop.%s.%s.%s' % (existing, has_data,
+                                                      given_default), str(e))
+                    continue
+                ctx.function(m, fn, 'ParticleArray.add_property', ex.dropped)
+                tag = 'addprop.%s.%s.%s' % (
+                    'existing' if existing else 'new',
+                    'data' if has_data else 'nodata',
+                    'default' if given_default else 'nodefault')
+                obs.append(Obligation(tag + '.returns', [], z3.BoolVal(
+                    any(o.kind == 'return' for o in outs)), W))
+                for i_, o in enumerate(outs):
+                    if o.kind != 'return':
+                        obs.append(Obligation('%s.no_error.%d' % (tag, i_),
+                                              o.pc, z3.BoolVal(False), W))
+                        continue
+                    me = o.state.env['self']
+                    tr = o.state.trace
+                    g = []
+                    # default record
+                    want_d = newdef if given_default else (
+                        dflt['q'] if existing else 0)
+                    g.append(z3.BoolVal(S.same(me.attrs['default_values'].get(
+                        'q'), want_d) or (not S.is_sym(want_d) and
+                                          me.attrs['default_values'].get('q')
+                                          == want_d)))
+                    g.append(z3.BoolVal(me.attrs['stride'].get('q') == STR))
+                    g.append(z3.BoolVal('q' in me.attrs['properties']))
+                    n_is0 = z3.simplify(z3.And(*[S.to_z3(c) for c in o.pc]
+                                               + [n == 0]))
+                    sol = z3.Solver()
+                    sol.add(*[S.to_z3(c) for c in o.pc])
+                    sol.add(n == 0)
+                    empty = sol.check() == z3.sat
+                    sol2 = z3.Solver()
+                    sol2.add(*[S.to_z3(c) for c in o.pc])
+                    sol2.add(n > 0)
+                    nonempty = sol2.check() == z3.sat
+                    g.append(z3.BoolVal(empty != nonempty))
+                    rs = [t for t in tr if t[0] == 'resize']
+                    fl = [t for t in tr if t[0] == 'fill']
+                    cr = [t for t in tr if t[0] == 'create']
+                    sd = [t for t in tr if t[0] == 'set_data']
+                    if empty and has_data:
+                        others = [p_ for p_ in ('x', 'v', 'q')
+                                  if p_ in props]
+                        kq = z3.Int('n_elem')
+                        okr = [t[1] for t in rs] == others
+                        g.append(z3.BoolVal(okr))
+                        if okr:
+                            for t in rs:
+                                st_ = stride0.get(t[1], 1) if t[1] != 'q' \
+                                    else STR
+                                g.append(S.to_z3(S.cmp('==', t[2][0],
+                                                       kq * st_)))
+                        fo = [t for t in fl if t[1] in others]
+                        g.append(z3.BoolVal(
+                            [t[1] for t in fo] == others and all(
+                                S.same(t[3], dflt[t[1]] if t[1] != 'q'
+                                       else want_d) or (t[1] == 'q' and
+                                                        not S.is_sym(want_d)
+                                                        and t[3] == want_d)
+                                for t in fo)))
+                        g.append(S.to_z3(S.cmp(
+                            '==', me.attrs['num_real_particles'], kq)))
+                    if not existing:
+                        # a new array of the right length
+                        if has_data:
+                            g.append(z3.BoolVal(len(cr) == 1))
+                            if cr:
+                                g.append(S.to_z3(S.cmp('==', cr[0][2], L)))
+                        else:
+                            g.append(z3.BoolVal(len(cr) == 1))
+                            if cr:
+                                g.append(S.to_z3(S.cmp('==', cr[0][2],
+                                                       n * STR)))
+                                g.append(z3.BoolVal(S.same(cr[0][3],
+                                                           want_d) or
+                                                    cr[0][3] == want_d))
+                    else:
+                        g.append(z3.BoolVal(not cr))
+                        g.append(z3.BoolVal((len(sd) == 1 and sd[0][1] == 'q')
+                                            if has_data else not sd))
+                    obs.append(Obligation('%s.post.%d' % (tag, i_), o.pc,
+                                          z3.And(*g), W))
+    for o_ in obs:
+        o_.extra = dict(o_.extra or {}, backends=['z3'])
+    ctx.prove('addprop.add_property_keeps_every_record_consistent', obs,
+              use_nf=False, replay=replay_props)
